@@ -349,11 +349,14 @@ pub struct ChunkItem {
     pub pad: Vec<u8>,
     /// user-data chunks: bits set in the flags word beyond the three the format defines (1 text, 2 colour, 4 properties)
     pub flag_junk: u32,
+    /// layer chunks: the opacity byte to write instead of the model's (only meaningful when the header says
+    /// that layer opacities are not valid, i.e. the byte is an unused field)
+    pub opacity_override: Option<u8>,
 }
 
 impl From<ChunkSpec> for ChunkItem {
     fn from(spec: ChunkSpec) -> Self {
-        ChunkItem { spec, pad: vec![], flag_junk: 0 }
+        ChunkItem { spec, pad: vec![], flag_junk: 0, opacity_override: None }
     }
 }
 
